@@ -20,9 +20,16 @@ class Node:
 
 
 class CFG:
-    def __init__(self, func_node):
+    def __init__(self, func_node, resolver=None, owner="", max_depth=3):
+        """resolver(call_node, owner) -> (FunctionDef, owner name of the callee) | None: calls of the repository's own private
+        helpers (`self._stage(...)`, `_helper(...)`) are *spliced* - the callee's statements become part of this graph, its
+        returns continue after the call - so that a method split into stages is analysed like the unsplit one."""
         self.nodes = []
         self.func = func_node
+        self.resolver = resolver
+        self.max_depth = max_depth
+        self._ctx = [(owner, (), None)]  # (owner function, inline instance path, call-site node id)
+        self._rets = []  # return collectors of the callees being spliced
         self.entry = self._new("entry")
         self.exit = self._new("exit")
         self.raise_exit = self._new("raise")
@@ -34,8 +41,28 @@ class CFG:
 
     def _new(self, kind, ast_node=None, label=""):
         n = Node(len(self.nodes), kind, ast_node, label)
+        n.owner, n.inst, n.callsite = self._ctx[-1]
         self.nodes.append(n)
         return n
+
+    def _spliceable(self, st):
+        """(call node, FunctionDef, owner) when the statement is `[x =] helper(...)` / `return helper(...)` of a resolvable private helper."""
+        if self.resolver is None or len(self._ctx) > self.max_depth:
+            return None
+        v = None
+        if isinstance(st, ast.Expr):
+            v = st.value
+        elif isinstance(st, (ast.Assign, ast.AnnAssign, ast.AugAssign, ast.Return)):
+            v = st.value
+        if not isinstance(v, ast.Call):
+            return None
+        r = self.resolver(v, self._ctx[-1][0])
+        if r is None:
+            return None
+        fdef, owner = r
+        if any(owner == c[0] for c in self._ctx):
+            return None  # recursion
+        return v, fdef, owner
 
     def _edge(self, frm, to):
         src, lab = frm
@@ -83,11 +110,36 @@ class CFG:
                 self._edge(e, n.id)
             continues.append((n.id, "continue"))
             return []
+        sp = self._spliceable(st)
+        if sp is not None:
+            call, fdef, owner = sp
+            n = self._new("stmt", st, "call " + ast.unparse(call.func))
+            n.spliced = True
+            for e in incoming:
+                self._edge(e, n.id)
+            self._ctx.append((owner, self._ctx[-1][1] + (n.id,), n.id))
+            self._rets.append([])
+            ends = self._block(fdef.body, [(n.id, "call")], [], [])
+            cont = ends + self._rets.pop()
+            self._ctx.pop()
+            if isinstance(st, ast.Return):
+                m = self._new("return", None, "return <spliced call>")
+                for e in cont:
+                    self._edge(e, m.id)
+                if self._rets:
+                    self._rets[-1].append((m.id, "return"))
+                else:
+                    self._edge((m.id, "return"), self.exit.id)
+                return []
+            return cont
         if isinstance(st, ast.Return):
             n = self._new("return", st, ast.unparse(st))
             for e in incoming:
                 self._edge(e, n.id)
-            self._edge((n.id, "return"), self.exit.id)
+            if self._rets:
+                self._rets[-1].append((n.id, "return"))  # a return inside a spliced callee continues after the call
+            else:
+                self._edge((n.id, "return"), self.exit.id)
             return []
         if isinstance(st, ast.Raise):
             n = self._new("raise", st, ast.unparse(st)[:60])
@@ -178,11 +230,13 @@ class CFG:
         out = []
         target = self.nodes[nid]
         for n in self.nodes:
-            if n.kind == "for" and n.ast is not None and target.ast is not None and n.id != nid:
+            if n.kind == "for" and n.ast is not None and target.ast is not None and n.id != nid and n.inst == target.inst:
                 body = n.ast.body
                 if body and body[0].lineno <= target.lineno <= body[-1].end_lineno:
                     out.append(n)
         out.sort(key=lambda x: x.lineno)
+        if target.callsite is not None:
+            out = self.enclosing_loops(target.callsite) + out  # loops around the call that was spliced
         return out
 
 
@@ -192,6 +246,10 @@ def calls_in(node):
     a = node.ast
     if a is None:
         return []
+    if getattr(node, "spliced", False):
+        # the spliced call itself is not an event of its own; its arguments are evaluated here
+        v = a.value
+        a = ast.Expr(value=ast.Tuple(elts=list(v.args) + [k.value for k in v.keywords], ctx=ast.Load()))
     roots = []
     if node.kind == "test":
         roots = [a.test]
